@@ -655,9 +655,22 @@ def gen_op(ch: core.Chooser, filter_: Optional[Callable[[Op], bool]] = None, onl
     return {"op": name, "args": spec["args"], "kwargs": spec.get("kwargs", {})}
 
 
+LAST_PARENTS: List[Any] = []  # parents of the view arguments of the last build_args call (C17 snapshots them too)
+
+
 def build_args(desc: dict) -> tuple:
     args = [model.build_value(v) for v in desc["args"]]
     kwargs = {k: model.build_value(v) for k, v in desc.get("kwargs", {}).items()}
+    LAST_PARENTS.clear()
+    if desc.get("view") in ("T", "rev"):
+        # polynomial arguments arrive as non-contiguous views of a parent the caller still holds
+        import numpoly
+
+        for i, a in enumerate(args):
+            if isinstance(a, numpoly.ndpoly) and a.ndim >= 1 and a.size > 1:
+                parent = a.T.copy() if desc["view"] == "T" else a[::-1].copy()
+                LAST_PARENTS.append(parent)
+                args[i] = parent.T if desc["view"] == "T" else parent[::-1]
     if desc.get("alias") and len(args) >= 2:
         # the very same object in two argument positions (where the second is a polynomial of the same shape)
         import numpoly
